@@ -10,7 +10,7 @@ Every tie has two steps:
 1. `…_eq_expected` (by hand, once): model reader = `Layout.read` of the descriptor written here
    (`Expected.*`) followed by a pure projection;
 2. `…_generated` (closed by `rfl`, re-checked on every run against the regenerated file):
-   `normalize Generated.X = normalize Expected.X`.  A harmless re-spelling of the declaration
+   `normalizeAt e Generated.X = normalizeAt e Expected.X` (`e` = the endianness in force).  A harmless re-spelling of the declaration
    (field names, struct-level vs per-field endianness, a pad split over two neighbouring fields,
    attribute order, comments) keeps the normal form; a change of order, width, signedness,
    endianness, pad size, magic, count or enum set does not.
@@ -74,14 +74,14 @@ end Expected
 
 theorem endian_generated : endian = .little := rfl
 theorem segementDescriptor_generated :
-    BinrwIndex.segementDescriptor.normalize = Expected.segementDescriptor.normalize := rfl
+    BinrwIndex.segementDescriptor.normalizeAt .little = Expected.segementDescriptor.normalizeAt .little := rfl
 theorem sqPackHeader_generated :
-    BinrwIndex.sqPackHeader.normalize = Expected.sqPackHeader.normalize := rfl
+    BinrwIndex.sqPackHeader.normalizeAt .little = Expected.sqPackHeader.normalizeAt .little := rfl
 theorem sqPackIndexHeader_generated :
-    BinrwIndex.sqPackIndexHeader.normalize =
-      (Expected.sqPackIndexHeader BinrwIndex.segementDescriptor).normalize := rfl
-theorem dataEntry_generated : BinrwIndex.dataEntry.normalize = Expected.dataEntry.normalize := rfl
-theorem folderEntry_generated : BinrwIndex.folderEntry.normalize = Expected.folderEntry.normalize := rfl
+    BinrwIndex.sqPackIndexHeader.normalizeAt .little =
+      (Expected.sqPackIndexHeader BinrwIndex.segementDescriptor).normalizeAt .little := rfl
+theorem dataEntry_generated : BinrwIndex.dataEntry.normalizeAt .little = Expected.dataEntry.normalizeAt .little := rfl
+theorem folderEntry_generated : BinrwIndex.folderEntry.normalizeAt .little = Expected.folderEntry.normalizeAt .little := rfl
 
 /-! ### projections: which of the values the model keeps -/
 
@@ -135,10 +135,10 @@ theorem readIndexHeader_eq_expected (l : Bytes) :
   rfl
 
 /-- the header layout depends on the nested descriptor only through what that descriptor reads -/
-theorem sqPackIndexHeader_congr (e : Endian) {s1 s2 : Layout} (h : s1.normalize = s2.normalize) (l : Bytes) :
+theorem sqPackIndexHeader_congr (e : Endian) {s1 s2 : Layout} (h : s1.normalizeAt e = s2.normalizeAt e) (l : Bytes) :
     Layout.read e (Expected.sqPackIndexHeader s1) l = Layout.read e (Expected.sqPackIndexHeader s2) l := by
   simp only [Expected.sqPackIndexHeader, Layout.read, Layout.readFields, Field.read, Kind.read,
-    Layout.read_congr _ h, Nat.zero_sub]
+    Option.getD, Layout.read_congr e h, Nat.zero_sub]
 
 /-! ### the tie: model reader = interpretation of the regenerated descriptor -/
 
@@ -159,8 +159,8 @@ theorem readIndexHeader_eq_generated (l : Bytes) :
 /-- `SqPackIndex` starts with the `SqPackHeader` (the translated prefix of the top-level struct;
 the following fields are behind `seek_before`) -/
 theorem parse_starts_with_header :
-    BinrwIndex.sqPackIndex.normalize =
-      (Layout.mk (some .little) .none [.mk "" none .none 0 (.struct BinrwIndex.sqPackHeader) 0 0] false).normalize := rfl
+    BinrwIndex.sqPackIndex.normalizeAt .little =
+      (Layout.mk none .none [.mk "" none .none 0 (.struct BinrwIndex.sqPackHeader) 0 0] false).normalizeAt .little := rfl
 
 /-- `Vec<DataEntry>` / `Vec<FolderEntry>` with `count = n`: the model only checks readability -/
 theorem readRecords_eq_repeatN (need pad : Nat) (rd : Bytes → Option (Value × Bytes))
